@@ -149,17 +149,18 @@ static const char *g_harness = "";
 
 inline void set_stage(const char *s) { g_stage = s; }
 
+static volatile long g_cnt[6] = {0, 0, 0, 0, 0, 0};   // evaluations, held, violated, inconclusive, nontrivial, c15 (for the partial summary on abnormal exit)
 static void write_all(int fd, const char *p, size_t n) { while (n) { ssize_t k = ::write(fd, p, n); if (k <= 0) return; p += k; n -= (size_t)k; } }
 
 static void on_alarm(int) {
-    char b[300];
-    int n = snprintf(b, sizeof b, "{\"t\":\"hang\",\"case\":%ld,\"stage\":\"%s\",\"progress\":%ld}\n", g_curcase, (const char *)g_stage, (long)g_progress);
+    char b[500];
+    int n = snprintf(b, sizeof b, "{\"t\":\"summary\",\"partial\":true,\"evaluations\":%ld,\"held\":%ld,\"violated\":%ld,\"inconclusive\":%ld,\"nontrivial\":%ld,\"c15\":%ld}\n{\"t\":\"hang\",\"case\":%ld,\"stage\":\"%s\",\"progress\":%ld}\n", g_cnt[0], g_cnt[1], g_cnt[2], g_cnt[3], g_cnt[4], g_cnt[5], g_curcase, (const char *)g_stage, (long)g_progress);
     if (g_outfd >= 0) write_all(g_outfd, b, (size_t)n);
     _exit(3);
 }
 static void on_fatal(int sig) {
-    char b[300];
-    int n = snprintf(b, sizeof b, "{\"t\":\"crash\",\"case\":%ld,\"stage\":\"%s\",\"signal\":%d}\n", g_curcase, (const char *)g_stage, sig);
+    char b[500];
+    int n = snprintf(b, sizeof b, "{\"t\":\"summary\",\"partial\":true,\"evaluations\":%ld,\"held\":%ld,\"violated\":%ld,\"inconclusive\":%ld,\"nontrivial\":%ld,\"c15\":%ld}\n{\"t\":\"crash\",\"case\":%ld,\"stage\":\"%s\",\"signal\":%d}\n", g_cnt[0], g_cnt[1], g_cnt[2], g_cnt[3], g_cnt[4], g_cnt[5], g_curcase, (const char *)g_stage, sig);
     if (g_outfd >= 0) write_all(g_outfd, b, (size_t)n);
     signal(sig, SIG_DFL);
     raise(sig);
@@ -258,8 +259,9 @@ inline int harness_main(int argc, char **argv, const char *name, CaseFn fn) {
         else if (!r.inconclusive.empty()) { verdict = "inconclusive"; inconclusive++; incReasons[r.inconclusive]++; }
         else { verdict = "held"; held++; }
         if (!r.c15.empty()) c15n++;
+        g_cnt[0] = evaluations; g_cnt[1] = held; g_cnt[2] = violated; g_cnt[3] = inconclusive; g_cnt[5] = c15n;
         if (r.nontrivial && verdict != "inconclusive") {
-            nontrivial++; gensNt[r.gen]++;
+            nontrivial++; gensNt[r.gen]++; g_cnt[4] = nontrivial;
             fwrite(&r.digest, sizeof r.digest, 1, dig);
         }
         bool emit = verdict != "held" || !r.c15.empty() || wantDesc;
@@ -267,7 +269,8 @@ inline int harness_main(int argc, char **argv, const char *name, CaseFn fn) {
             if (r.desc.empty() && !wantDesc) {
                 // regenerate with description for the record
                 CaseResult r2;
-                try { alarm((unsigned)a.watchdog); fn(a, idx, true, r2); alarm(0); r.desc = r2.desc; } catch (...) { alarm(0); }
+                try { alarm((unsigned)a.watchdog); fn(a, idx, true, r2); } catch (...) { }
+                alarm(0); r.desc = r2.desc;
             }
             JObj o;
             o.str("t", "case").i("case", idx).str("mode", a.mode).str("gen", r.gen).str("verdict", verdict)
